@@ -22,8 +22,23 @@ func isPropOp(op string) bool {
 }
 
 // genRegister draws a registration step.
+// firingCombos are the (owner, time, target) registrations that are ever invoked.
+var firingCombos = [][3]int{
+	{ownTable, 0, 2}, {ownTable, 0, 1}, {ownTable, 1, 0}, {ownTable, 3, 0}, {ownTable, 1, 1}, {ownTable, 2, 1}, {ownTable, 3, 1},
+	{ownColumn, 0, 1}, {ownColumn, 1, 0}, {ownColumn, 3, 0}, {ownColumn, 1, 1}, {ownColumn, 3, 1},
+	{ownRow, 0, 1}, {ownRow, 0, 0}, {ownRow, 1, 0}, {ownRow, 3, 0}, {ownRow, 1, 1}, {ownRow, 3, 1}, {ownRow, 0, 1},
+	{ownCell, 2, 0},
+}
+
 func genRegister(r *Rng, failing bool, marker bool) Step {
 	st := Step{Op: "register", A: r.Pick([]int{4, 3, 4, 3, 1}), B: r.Intn(6), C: r.Intn(4), D: r.Intn(3)}
+	if r.Chance(2, 3) {
+		c := firingCombos[r.Intn(len(firingCombos))]
+		st.A, st.C, st.D = c[0], c[1], c[2]
+		if r.Chance(1, 2) {
+			st.B = r.Intn(2)
+		}
+	}
 	if marker {
 		st.E = 1
 	}
@@ -116,6 +131,27 @@ func (engC11) Gen(r *Rng, s *Script, idx int, tier string) {
 	}
 	m := drawBuildMix(r)
 	m.sepAdd += 1
+	if r.Chance(1, 4) {
+		// a row that collects callback and direct errors while still detached
+		s.Config["detached_row_scenario"] = 1
+		s.Steps = append(s.Steps, Step{Op: "newRow", A: r.Intn(3), B: r.Intn(6)})
+		reg := Step{Op: "register", A: ownRow, B: 0, C: 0, D: 1}
+		for i := 0; i < 6; i++ {
+			if r.Chance(1, 2) {
+				reg.Plan = append(reg.Plan, i)
+			}
+		}
+		s.Steps = append(s.Steps, reg)
+		for i := r.Range(1, 5); i > 0; i-- {
+			if r.Chance(1, 4) {
+				s.Steps = append(s.Steps, Step{Op: "rowError", A: 0})
+			}
+			s.Steps = append(s.Steps, Step{Op: "rowAdd", A: 0, Items: genItems(r, 1, 0, &ctr)})
+		}
+		if r.Chance(3, 4) {
+			s.Steps = append(s.Steps, Step{Op: "attach"})
+		}
+	}
 	errW := r.Range(1, 6)
 	regW := r.Range(1, 4)
 	renW := r.Range(0, 3)
